@@ -152,6 +152,7 @@ func runC11(c *Ctx, r *Report) {
 	r.Rule("C11/password-prompt-anchored", "the built-in pattern that decides when the login password is typed matches only where the prompt ends a line", 1)
 	checkPasswordPromptAnchored(c, r, "C11/password-prompt-anchored")
 	importFoundation(c, r, "C11", "interactive")
+	importFoundation(c, r, "C11", "transport-pipe")
 	r.Rule("C11/auth-reset", "after each credential the login loop starts from an empty buffer: a credential is typed once per prompt shown, never again into a session that echoes", 4)
 	checkAuthBufferReset(c, r, "C11/auth-reset")
 	r.Rule("C11/one-answer-per-pass", "on the true edge of a credential prompt's match the login loop types nothing but that prompt's own credential: a secret is never typed at a prompt that echoes", 4)
